@@ -1,6 +1,7 @@
 SPEC = {
     "id": "C01",
     "n": {"quick": 250, "thorough": 5000},
+    "search": {"n": 1200, "timeout": 900},
     "components": {"1": "work-unit machine (Gql/Exec.v) under the scripted schedule vs Execute",
                    "2": "eval_ref (Gql/Ref.v) vs Execute",
                    "3": "model cannot parse the query / out of fuel / query or data does not fit the schema",
